@@ -624,9 +624,26 @@ func (vm *VM) execEq() error {
 		return err
 	}
 
-	result := vm.valuesEqual(a, b)
+	result := vm.operandsEqual(a, b)
 	vm.Push(BoolValue{Val: result})
 	return nil
+}
+
+// operandsEqual is the == operator: an int and a float compare numerically
+// (as <, <= etc. already do, and as the interpreter does); everything else is
+// valuesEqual.
+func (vm *VM) operandsEqual(a, b Value) bool {
+	switch av := a.(type) {
+	case IntValue:
+		if bv, ok := b.(FloatValue); ok {
+			return float64(av.Val) == bv.Val
+		}
+	case FloatValue:
+		if bv, ok := b.(IntValue); ok {
+			return av.Val == float64(bv.Val)
+		}
+	}
+	return vm.valuesEqual(a, b)
 }
 
 // execNe checks inequality
@@ -640,7 +657,7 @@ func (vm *VM) execNe() error {
 		return err
 	}
 
-	result := !vm.valuesEqual(a, b)
+	result := !vm.operandsEqual(a, b)
 	vm.Push(BoolValue{Val: result})
 	return nil
 }
